@@ -1794,7 +1794,7 @@ fn float_ops<R: ModeTag, const B: Word>(v: &mut Vec<Op>) {
     fentry!(v, V, B, format!("{t}::from_parts"), U0.a(2).k(), |c| FBig::<R, B>::from_parts(c.ia(), c.k128() as isize), |d| Pre::new().unspec((d.k128() as isize).unsigned_abs() > (1 << 60), L_EXT).done());
     fentry!(v, V, B, format!("{t}::from_parts_const"), U0.a(2).k().n(NK::Prec), |c| FBig::<R, B>::from_parts_const(if c.a.neg { Sign::Negative } else { Sign::Positive }, low128(&c.a.mag), c.k128() as isize, if c.n == 0 { None } else { Some(c.nu()) }), |d| Pre::new().unspec((d.k128() as isize).unsigned_abs() > (1 << 60), L_EXT).done());
     fentry!(v, V, B, format!("Repr<{B}>::new / into_parts"), U0.a(2).k(), |c| Repr::<B>::new(c.ia(), c.k128() as isize).into_parts(), |d| Pre::new().unspec((d.k128() as isize).unsigned_abs() > (1 << 60), L_EXT).done());
-    fentry!(v, V, B, format!("{t}::with_precision"), U0.x().n(NK::Prec), |c| c.fx::<R, B>().with_precision(c.nu()), |d| pre_passive(&fv(&d.x, B as u64)));
+    fentry!(v, V, B, format!("{t}::with_precision"), U0.x().n(NK::Prec), |c| c.fx::<R, B>().with_precision(c.nu()), |d| { let x = fv(&d.x, B as u64); if x.extreme() { Pre::new().unspec(true, L_EXT).done() } else { pre_passive(&x) } });
     fentry!(v, V, B, format!("{t}::with_rounding"), FX, |c| c.fx::<R, B>().with_rounding::<mode::Down>(), |_d| ret());
     fentry!(v, V, B, format!("{t}::to_decimal"), FX, |c| c.fx::<R, B>().to_decimal(), |d| pre_with_base(&fv(&d.x, B as u64), B as u64, 10, None));
     fentry!(v, V, B, format!("{t}::to_binary"), FX, |c| c.fx::<R, B>().to_binary(), |d| pre_with_base(&fv(&d.x, B as u64), B as u64, 2, None));
